@@ -54,11 +54,18 @@ static std::string run_case(const J &c, std::string &sig) {
         switch (op) {
             case S_ENC: newwire((int)(a & 1)); break;
             case S_GATE: {
-                int g = (int)(a % G_COUNT);
+                static const int GT[20] = {G_NAND, G_OR, G_AND, G_XOR, G_XNOR, G_NOR, G_ANDNY, G_ANDYN, G_ORNY, G_ORYN, G_MUX, G_NOT, G_COPY, G_CONSTANT, G_MUX, G_MUX, G_AND, G_XOR, G_MUX, G_NAND};
+                int g = GT[a % 20]; // the three-input gate (two bootstraps, its own scratch samples) gets a fifth of the gate steps
                 LweSample *r = (d & 8) && wires.size() > 2 ? pick(d) : nullptr; // in place on an existing ciphertext or into a new one
                 bool fresh = r == nullptr;
                 if (fresh) r = new_gate_bootstrapping_ciphertext(params);
-                gate_apply(g, r, pick(b), pick(b >> 8), pick(b >> 16), (int)(a & 1), use);
+                LweSample *ia = pick(b), *tmp = nullptr;
+                if (d & 16) { // first input replaced by a copy whose body makes the body of a+b-1/8 (AND, NAND, MUX branch) round to exactly 0: no-rotation path of the blind rotation
+                    tmp = new_gate_bootstrapping_ciphertext(params); lweCopy(tmp, ia, params->in_out_params);
+                    tmp->b = (int32_t)(MU8 - (uint32_t)pick(b >> 8)->b + (uint32_t)(d >> 5) % 1024u); ia = tmp;
+                }
+                gate_apply(g, r, ia, pick(b >> 8), pick(b >> 16), (int)(a & 1), use);
+                if (tmp) delete_gate_bootstrapping_ciphertext(tmp);
                 mixin(r->a, (size_t)n * 4); mixin(&r->b, 4);
                 if (fresh) { wires.push_back(r); bits.push_back(0); }
                 break; }
@@ -66,9 +73,12 @@ static std::string run_case(const J &c, std::string &sig) {
                 int v = (int)(a % 4);
                 bool ks = v == 0 || v == 2;
                 LweSample *r = new_LweSample(ks ? params->in_out_params : &params->tgsw_params->tlwe_params->extracted_lweparams);
-                switch (v) { case 0: tfhe_bootstrap_FFT(r, ck->bkFFT, (int32_t)d, pick(b)); break; case 1: tfhe_bootstrap_woKS_FFT(r, ck->bkFFT, (int32_t)d, pick(b)); break;
-                             case 2: tfhe_bootstrap(r, ck->bk, (int32_t)d, pick(b)); break; default: tfhe_bootstrap_woKS(r, ck->bk, (int32_t)d, pick(b)); }
-                mixin(&r->b, 4);
+                LweSample *x = pick(b), *tmp = nullptr;
+                if (a & 8) { tmp = new_gate_bootstrapping_ciphertext(params); lweCopy(tmp, x, params->in_out_params); tmp->b = (int32_t)(d % 1000) - 500; x = tmp; } // body rounds to 0: no initial rotation of the test vector
+                switch (v) { case 0: tfhe_bootstrap_FFT(r, ck->bkFFT, (int32_t)d, x); break; case 1: tfhe_bootstrap_woKS_FFT(r, ck->bkFFT, (int32_t)d, x); break;
+                             case 2: tfhe_bootstrap(r, ck->bk, (int32_t)d, x); break; default: tfhe_bootstrap_woKS(r, ck->bk, (int32_t)d, x); }
+                mixin(&r->b, 4); mixin(r->a, (size_t)(ks ? n : params->tgsw_params->tlwe_params->extracted_lweparams.n) * 4);
+                if (tmp) delete_gate_bootstrapping_ciphertext(tmp);
                 delete_LweSample(r);
                 break; }
             case S_EXPORT_CT: { std::string s = bytes_ct(pick(b), params->in_out_params, a & 1); mixin(s.data(), s.size()); break; }
@@ -188,7 +198,7 @@ int main(int argc, char **argv) {
         int pick = *rng<int>(0, 19);
         if (pick == 0 && big) cf.set("lambda", *rc::gen::element<int>(80, 128));
         else {
-            int n = big ? *rc::gen::element<int>(500, 630, 1024, 1025, 1100) : *rc::gen::weightedOneOf<int>({{5, rc::gen::element<int>(1, 3, 7, 8, 9)}, {2, rng<int>(2, 24)}});
+            int n = big ? *rc::gen::element<int>(500, 630, 1024, 1025, 1100, 1025, 1031) : *rc::gen::weightedOneOf<int>({{5, rc::gen::element<int>(1, 3, 7, 8, 9)}, {2, rng<int>(2, 24)}});
             int k = *rc::gen::weightedElement<int>({{2, 1}, {1, 2}});
             int Bgbit = *rc::gen::weightedOneOf<int>({{4, rng<int>(1, 10)}, {1, rng<int>(11, 16)}});
             int l = *rc::gen::weightedOneOf<int>({{3, rng<int>(1, std::min(big ? 2 : 6, 32 / Bgbit))}, {1, rc::gen::just(std::min(big ? 2 : 8, 32 / Bgbit))}});
@@ -205,6 +215,10 @@ int main(int argc, char **argv) {
         auto v = *rc::gen::resize(*rng<int>(2, maxsteps), rc::gen::container<std::vector<std::vector<int64_t>>>(stepgen));
         J steps = J::array();
         for (auto &s : v) { J e = J::arr(s); steps.push(e); }
+        if (big) { // large dimensions are expensive: every such lifecycle also evaluates the three-input gate and one low-level bootstrap of each flavour
+            steps.push(J::arr(std::vector<int64_t>{S_GATE, 10, *rng<int>(0, 1 << 24), *rng<int>(0, 7)}));
+            steps.push(J::arr(std::vector<int64_t>{S_BOOT, *rng<int>(0, 15), *rng<int>(0, 1 << 24), *rng<int>(0, 1 << 24)}));
+        }
         c.set("steps", steps);
         return c;
     });
